@@ -182,6 +182,8 @@ pub struct Sim {
 	/// per node: (payment hash, preimage known) of every outbound HTLC the monitors it was last restarted from
 	/// still tracked in a current counterparty commitment (read through the `_verif_hooks` accessor)
 	pub monitor_htlcs_at_restart: BTreeMap<usize, Vec<([u8; 32], bool)>>,
+	/// (node, channel index) -> the forwarding policy (fee base, ppm, cltv delta) that channel had before its latest update_channel_config
+	pub prev_policy: BTreeMap<(usize, usize), (u32, u32, u16)>,
 }
 
 fn pair(a: usize, b: usize) -> (usize, usize) {
@@ -206,7 +208,7 @@ impl Sim {
 			}
 		}
 		let genesis = w.nodes[0].blocks.lock().unwrap()[0].0.clone();
-		Sim { w, links, connected, chans: vec![], pays: vec![], log: vec![], broadcasts: vec![vec![]; n], next_payment_id: 1, emulate_disconnects: true, chain: ChainSim::new(genesis), snapshots: vec![vec![]; n], min_reorg_floor: 0, last_restart_error: None, monitor_htlcs_at_restart: BTreeMap::new() }
+		Sim { w, links, connected, chans: vec![], pays: vec![], log: vec![], broadcasts: vec![vec![]; n], next_payment_id: 1, emulate_disconnects: true, chain: ChainSim::new(genesis), snapshots: vec![vec![]; n], min_reorg_floor: 0, last_restart_error: None, monitor_htlcs_at_restart: BTreeMap::new(), prev_policy: BTreeMap::new() }
 	}
 
 	pub fn rec(&mut self, e: SEvent) {
